@@ -75,7 +75,7 @@ func runC01(c *kit.Ctx) {
 			if out.rawWrite && rawWrite == "" {
 				rawWrite = v.String()
 			}
-			o := r2.Ob(w.F, wl.inLoop, w.Table+": "+v.String(), "write/ignore outcome of one merge iteration")
+			o := r2.Ob(w.F, wl.anchor, w.Table+": "+v.String(), "write/ignore outcome of one merge iteration")
 			var allowed []string
 			match := v.rows == 1 && v.eqType && v.eqKey
 			switch {
@@ -114,13 +114,13 @@ func runC01(c *kit.Ctx) {
 		// R3 lock-step
 		c01LockStep(c, wl, r3)
 		// R4
-		o := r4.Ob(w.F, wl.inLoop, w.Table+": key compared normalised", "with an empty incoming key the key is normalised before it is compared with stored keys")
+		o := r4.Ob(w.F, wl.anchor, w.Table+": key compared normalised", "with an empty incoming key the key is normalised before it is compared with stored keys")
 		if rawCmp != "" {
 			o.Violation("the incoming key \"\" is compared with stored keys before being normalised (%s): a point with key \"\" never matches the stored key and gets a second row", rawCmp)
 		} else {
 			o.OK("normalisation idiom dominates the comparison")
 		}
-		o = r4.Ob(w.F, wl.inLoop, w.Table+": key written normalised", "with an empty incoming key the written point carries the canonical key")
+		o = r4.Ob(w.F, wl.anchor, w.Table+": key written normalised", "with an empty incoming key the written point carries the canonical key")
 		if rawWrite != "" {
 			o.Violation("a point with key \"\" is queued for writing without normalisation (%s)", rawWrite)
 		} else {
@@ -312,20 +312,39 @@ func describeFx(p string) string {
 // destinations of one Scan call (id column and point fields).
 func c01LockStep(c *kit.Ctx, wl *writerLoop, r3 *kit.Rule) {
 	f := wl.f
-	o := r3.Ob(f, wl.searchAnchor, wl.w.Table+": stored ids in lock-step", "ids[j] is the row id scanned with points[j]")
-	if wl.dbIDs == nil {
-		o.Violation("no write re-uses a stored row id (no append of <ids>[<stored index>] on the reuse path)")
-		return
+	anchor := wl.searchAnchor
+	if anchor == nil {
+		anchor = wl.anchor
 	}
-	kind, msg := lockStepIn(c, f, wl.dbPts, wl.dbIDs, 0)
-	switch kind {
-	case "ok":
-		o.OK("%s", msg)
-	case "viol":
-		o.Violation("%s", msg)
-	default:
-		o.Undecided("%s", msg)
+	o := r3.Ob(f, anchor, wl.w.Table+": stored ids in lock-step", "ids[j] is the row id scanned with points[j]")
+	// two stored rows, exactly one of them older and of the incoming identity: the row
+	// written over must be that row, whichever position it has
+	for pos := 0; pos < 2; pos++ {
+		rows := []mergeRow{{eqType: false, eqKey: false, order: "lt"}, {eqType: false, eqKey: false, order: "lt"}}
+		rows[pos] = mergeRow{eqType: true, eqKey: true, order: "lt"}
+		out := wl.run(mergeVal{rows: 2, rowsV: rows})
+		c.AddValuations(1)
+		if out.paths == 0 {
+			o.Undecided("no successful path with two stored rows (matching row at position %d)", pos)
+			return
+		}
+		for _, fx := range out.fx {
+			switch p := projectFx(fx, "wp:", "id:"); p {
+			case "id:reuse+wp:in":
+			case "id:wrongrow+wp:in":
+				o.Violation("with two stored rows and the matching one at position %d the incoming point is written under the row id of the OTHER row: that row's point is overwritten and the matching row keeps its old value", pos)
+				return
+			default:
+				if strings.Contains(p, "id:other") {
+					o.Undecided("with two stored rows (matching row at position %d) the row id handed to the INSERT cannot be traced to a scanned id or a fresh one (%s)", pos, p)
+				} else {
+					o.Violation("with two stored rows and the matching one at position %d: %s; expected the incoming point written once over the matching row", pos, describeFx(p))
+				}
+				return
+			}
+		}
 	}
+	o.OK("with two stored rows the id bound to the INSERT is the id scanned with the matching row, at either position")
 }
 
 // returnsOf lists the result expressions of every return of f that has a result
@@ -1367,8 +1386,10 @@ func c01SQL(c *kit.Ctx, m *storeModel, r6 *kit.Rule) {
 			oT.OK("%v", cols)
 		}
 		oA := r6.Ob(f, w.Exec.Call, w.Table+": bound arguments", "argument i is the like-named field of the point being written (time as UnixNano, id from the id slice)")
-		if bad := boundArgsProblem(c, w, pointFields, nil); bad != "" {
+		if bad, undec := boundArgsProblem(c, m, w, pointFields, nil); bad != "" {
 			oA.Violation("%s", bad)
+		} else if undec != "" {
+			oA.Undecided("%s", undec)
 		} else {
 			oA.OK("%d arguments in column order", len(cols))
 		}
@@ -1434,81 +1455,72 @@ func ordinalOf(f *kit.Func, call *ast.CallExpr, rows types.Object) string {
 // boundArgsProblem checks that the prepared INSERT binds, column by column,
 // the unmodified like-named field of the point being written (time through
 // UnixNano).  only restricts the check to the given columns (nil = all).
-func boundArgsProblem(c *kit.Ctx, w *pointWriter, pointFields map[string]string, only map[string]bool) string {
-	f := w.F
-	info := f.Info()
+func boundArgsProblem(c *kit.Ctx, m *storeModel, w *pointWriter, pointFields map[string]string, only map[string]bool) (bad, undecided string) {
+	// decided on values: the writer is evaluated symbolically (wsym.go) for an insert,
+	// an overwrite and an insert with an empty key; the terms bound to each column
+	// are read off at the Exec
+	wl := newWriterLoop(c, m, w)
 	cols := w.Exec.Stmts[0].Cols
-	rs := f.EnclosingLoop(w.Exec.Call)
-	var wpt types.Object
-	if rs != nil {
-		wpt = kit.LoopElemVar(info, rs)
+	binds := map[string]map[string]bool{}
+	nargs := 0
+	for _, v := range []mergeVal{{rows: 0}, {rows: 1, eqType: true, eqKey: true, order: "lt"}, {rows: 0, kempty: true}} {
+		out := wl.run(v)
+		c.AddValuations(1)
+		for col, ts := range out.binds {
+			if binds[col] == nil {
+				binds[col] = map[string]bool{}
+			}
+			for t := range ts {
+				binds[col][t] = true
+			}
+		}
+		if out.execArgs > nargs {
+			nargs = out.execArgs
+		}
 	}
-	if rs == nil || wpt == nil {
-		return "the INSERT Exec is not inside a range loop over the points to write"
+	if len(binds) == 0 {
+		return "", "the prepared INSERT is not reached on a successful path of the symbolic evaluation"
 	}
-	bad := ""
-	if len(w.Exec.Args) != len(cols) {
-		return "Exec binds " + strconv.Itoa(len(w.Exec.Args)) + " arguments for " + strconv.Itoa(len(cols)) + " columns"
+	if nargs != len(cols) {
+		return "Exec binds " + strconv.Itoa(nargs) + " arguments for " + strconv.Itoa(len(cols)) + " columns", ""
 	}
-	for i := 0; bad == "" && i < len(cols); i++ {
-		col, arg := cols[i], w.Exec.Args[i]
+	for _, col := range cols {
 		if only != nil && !only[col] {
 			continue
 		}
 		fld, isPt := pointFields[col]
-		sel, isSel := ast.Unparen(arg).(*ast.SelectorExpr)
-		switch {
-		case col == "time":
-			lo := kit.ObjOf(info, arg)
-			okT := false
-			ast.Inspect(rs.Body, func(n ast.Node) bool {
-				if a2, ok := n.(*ast.AssignStmt); ok && len(a2.Lhs) == 1 && len(a2.Rhs) == 1 && lo != nil && kit.ObjOf(info, a2.Lhs[0]) == lo {
-					if cl, ok := ast.Unparen(a2.Rhs[0]).(*ast.CallExpr); ok && kit.CallIs(info, cl, "time.(Time).UnixNano") {
-						if s2, ok := ast.Unparen(cl.Fun).(*ast.SelectorExpr); ok {
-							if s3, ok := ast.Unparen(s2.X).(*ast.SelectorExpr); ok && s3.Sel.Name == "Time" && kit.ObjOf(info, s3.X) == wpt {
-								okT = true
-							}
-						}
+		var terms []string
+		for t := range binds[col] {
+			terms = append(terms, t)
+		}
+		sort.Strings(terms)
+		for _, t := range terms {
+			switch {
+			case col == "time":
+				if t != "IN.Time.UnixNano" && t != "NOW.UnixNano" {
+					if t == "?" {
+						undecided = "the value bound to column time cannot be traced"
+					} else {
+						return "column time is bound to " + t + ", expected <point>.Time.UnixNano() of the written point", ""
 					}
 				}
-				return true
-			})
-			if cl, ok := ast.Unparen(arg).(*ast.CallExpr); ok && kit.CallIs(info, cl, "time.(Time).UnixNano") {
-				if s2, ok := ast.Unparen(cl.Fun).(*ast.SelectorExpr); ok {
-					if s3, ok := ast.Unparen(s2.X).(*ast.SelectorExpr); ok && s3.Sel.Name == "Time" && kit.ObjOf(info, s3.X) == wpt {
-						okT = true
-					}
+			case isPt:
+				okT := t == "IN."+fld || (col == "key" && strings.HasPrefix(t, "C:") && t != `C:""`)
+				switch {
+				case okT:
+				case t == "?":
+					undecided = "the value bound to column " + col + " cannot be traced to the written point"
+				case t == "MODIFIED":
+					return "the point's field " + fld + " is modified after the merge decided on (and hashed) the incoming value, before it is bound to column " + col, ""
+				default:
+					return "column " + col + " is bound to " + t + ", expected the unmodified field " + fld + " of the written point", ""
 				}
-			}
-			if !okT {
-				bad = "column time is not bound to <point>.Time.UnixNano()"
-			}
-		case isPt:
-			if !isSel || sel.Sel.Name != fld || kit.ObjOf(info, sel.X) != wpt {
-				bad = "column " + col + " is bound to `" + f.Str(arg) + "`, expected the unmodified field " + fld + " of the written point"
-			}
-		case col == "id":
-			// checked by the merge loop model (wids)
-		case col == "node_id" || col == "edge_id":
-			if isSel && kit.ObjOf(info, sel.X) == wpt {
-				bad = "column " + col + " is bound to a field of the point"
+			case col == "node_id" || col == "edge_id":
+				if strings.HasPrefix(t, "IN.") || strings.HasPrefix(t, "DB#") {
+					return "column " + col + " is bound to a field of the point (" + t + ")", ""
+				}
 			}
 		}
 	}
-	// the written point must not be modified between the queue and the bind
-	if bad == "" {
-		ast.Inspect(rs.Body, func(n ast.Node) bool {
-			if as, ok := n.(*ast.AssignStmt); ok {
-				for _, l := range as.Lhs {
-					if s2, ok := ast.Unparen(l).(*ast.SelectorExpr); ok && kit.ObjOf(info, s2.X) == wpt {
-						if fn, isPt := map[string]bool{"Time": true, "Type": true, "Key": true, "Text": true, "Value": true, "Data": true, "Tombstone": true, "Origin": true}[s2.Sel.Name]; isPt && fn {
-							bad = "the point's field " + s2.Sel.Name + " is modified in the write loop, after the merge decided on (and hashed) the incoming value"
-						}
-					}
-				}
-			}
-			return true
-		})
-	}
-	return bad
+	return "", undecided
 }
